@@ -4,6 +4,7 @@ Enumerates every (gender, event) row x every integer target -10..1500 and checks
 inverse condition on the real functions (no external oracle needed).  DESIGN.md section 3/C09.
 """
 import math
+from checks import crossapi
 from vlib import common
 from vlib import orderpass
 from vlib.common import Acc, Report, merge, pmap
@@ -145,6 +146,7 @@ def run(tier):
     oc += [(P, a) for a in (('M', '100', 955), ('F', 'LJ', 1157), ('F', 'HJ', 1010), ('M', '110H', 974))]
     oc += [(S, a) for a in (('M', '100', 10.5), ('F', 'HJ', 1.8), ('M', '800', 120.0), ('M', '800', 120.0, None, True), ('M', '100', 12.5, 52), ('m', 'lj', 6.95), ('M', '80H', 13.5, 60))]
     orderpass.part(rep, oc, 'performance-needed / score call-order pass')
+    crossapi.part(rep, PID, tier)
     return rep.finish()
 
 
